@@ -323,6 +323,47 @@ fn op_pipeline(case: &Value) -> Value {
     json!({"stage": stage, "ntok": ntok, "codes": codes})
 }
 
+/// the bytes of a file as the project reads them: written to a scratch file, pushed into a
+/// FileBackedProject (source.rs decoder cascade), then tokenized; optional check verdict
+fn op_decode(case: &Value) -> Value {
+    let bytes = hex_decode(case.get("bytes").and_then(|v| v.as_str()).unwrap_or(""));
+    let dir = case.get("dir").and_then(|v| v.as_str()).unwrap_or("/tmp");
+    let path = std::path::Path::new(dir).join(format!(
+        "dec_{}_{}.st",
+        std::process::id(),
+        case.get("id").map(|v| v.to_string()).unwrap_or_default().replace('"', "")
+    ));
+    std::fs::write(&path, &bytes).expect("write scratch file");
+    let fid = FileId::from_path(&path);
+    let mut project = FileBackedProject::new();
+    let res = project.push(fid.clone());
+    let out = match res {
+        Ok(_) => {
+            let text = project.get(&fid).unwrap().as_string().to_string();
+            let mut v = json!({"text": hex_encode(text.as_bytes())});
+            if case.get("check").and_then(|v| v.as_bool()).unwrap_or(false) {
+                let (toks, tdiags) = tokenize_program(&text, &fid, &ParseOptions::default());
+                let toks: Vec<Value> = toks
+                    .iter()
+                    .map(|t| json!([format!("{:?}", t.token_type), t.line, t.col]))
+                    .collect();
+                let tdiags: Vec<Value> = tdiags.iter().map(diag_json).collect();
+                let diags: Vec<Value> = match project.semantic() {
+                    Ok(_) => vec![],
+                    Err(ds) => ds.iter().map(diag_json).collect(),
+                };
+                v["tokens"] = json!(toks);
+                v["tok_diags"] = json!(tdiags);
+                v["diags"] = json!(diags);
+            }
+            v
+        }
+        Err(d) => json!({"err": d.code}),
+    };
+    let _ = std::fs::remove_file(&path);
+    out
+}
+
 fn run_case(case: &Value) -> Value {
     let op = case.get("op").and_then(|v| v.as_str()).unwrap_or("");
     match op {
@@ -334,6 +375,7 @@ fn run_case(case: &Value) -> Value {
         "render" => op_render(case),
         "respell" => op_respell(case),
         "pipeline" => op_pipeline(case),
+        "decode" => op_decode(case),
         _ => json!({"harness_error": format!("unknown op {}", op)}),
     }
 }
